@@ -308,7 +308,7 @@ async fn udp_rounds(seed: u64, rounds: u64) -> Value {
     let config = ChitchatConfig {
         chitchat_id: id, cluster_id: "c".into(), gossip_interval: Duration::from_millis(40), listen_addr: node_addr,
         seed_nodes: vec![format!("127.0.0.1:{closed_port}")],   // an unreachable peer: every round sends into a closed port
-        failure_detector_config: FailureDetectorConfig::default(),
+        failure_detector_config: FailureDetectorConfig { dead_node_grace_period: Duration::from_secs(2), ..FailureDetectorConfig::default() },
         marked_for_deletion_grace_period: Duration::from_secs(1000),
         catchup_callback: None, extra_liveness_predicate: None,
     };
@@ -319,6 +319,7 @@ async fn udp_rounds(seed: u64, rounds: u64) -> Value {
     let mut violations: Vec<String> = Vec::new();
     let (mut rounds_ok, mut garbage, mut last_hb) = (0u64, 0u64, 0u64);
     let mut tool_trouble: Option<String> = None;
+    let mut oversized_ok = false;
     let mut buf = vec![0u8; 65536];
     for r in 0..rounds {
         for k in 0..12 {
@@ -362,7 +363,37 @@ async fn udp_rounds(seed: u64, rounds: u64) -> Value {
         if !answered { tool_trouble = Some(format!("a valid SYN was not answered in 30 s by a loop that is still alive (round {r})")); break; }
         rounds_ok += 1;
     }
-    // heartbeats kept increasing, and a shutdown request completes
+    // oversized sends on the real transport: 400 members with long ids learned through the public
+    // catch-up entry point make the node's digest ~96 KB, so every SYN it sends is refused by the
+    // kernel (EMSGSIZE) for about a second, until these never-heard-of members are scheduled for
+    // deletion (grace/2 = 1 s) and leave the digest. Afterwards the node must send and answer again.
+    if violations.is_empty() && tool_trouble.is_none() {
+        {
+            let cc = handle.chitchat();
+            let mut g = cc.lock().await;
+            for i in 0..400u32 {
+                let id = chitchat::ChitchatId::new(format!("{:x>200}", i), 0, format!("10.9.{}.{}:7000", i / 250, i % 250 + 1).parse().unwrap());
+                g.reset_node_state_if_update(&id, std::iter::empty(), 1, 0);
+            }
+        }
+        tokio::time::sleep(Duration::from_millis(1800)).await;
+        let mut answered = false;
+        for _attempt in 0..6 {
+            let _ = tester.send_to(&syn, node_addr).await;
+            let deadline = tokio::time::Instant::now() + Duration::from_secs(5);
+            while tokio::time::Instant::now() < deadline && !answered {
+                if let Ok(Ok((n, _))) = tokio::time::timeout(Duration::from_millis(500), tester.recv_from(&mut buf)).await {
+                    if let Ok(d) = codec::decode(&buf[..n]) { if let WMsg::SynAck { digest, .. } = d.msg { if digest.iter().any(|x| x.id.node_id == "n1" && x.hb > last_hb) { answered = true; } } }
+                }
+            }
+            if answered { break; }
+        }
+        let mut ended = false;
+        tokio::select! { biased; _ = &mut tw => { ended = true; } _ = std::future::ready(()) => {} }
+        if ended { violations.push("the gossip loop terminated after oversized sends were refused by the kernel".into()); }
+        else if !answered { violations.push("after a period of oversized (refused) sends the node no longer answers a valid SYN (30 s, 6 attempts) although its loop is alive".into()); }
+        else { oversized_ok = true; }
+    }
     let hb_a = { let cc = handle.chitchat(); let mut g = cc.lock().await; u64::from(g.self_node_state().heartbeat()) };
     let mut hb_b = hb_a;
     for _ in 0..100 {
@@ -375,7 +406,7 @@ async fn udp_rounds(seed: u64, rounds: u64) -> Value {
     let shutdown_ok = matches!(shut, Ok(Ok(())));
     if violations.is_empty() && tool_trouble.is_none() && !shutdown_ok { violations.push("shutdown request did not complete within 30 s".into()); }
     json!({"rounds": rounds, "rounds_ok": rounds_ok, "garbage_datagrams": garbage, "heartbeat_seen": last_hb,
-           "heartbeat_progress": hb_b > hb_a, "shutdown_ok": shutdown_ok, "violations": violations, "tool_trouble": tool_trouble})
+           "heartbeat_progress": hb_b > hb_a, "shutdown_ok": shutdown_ok, "violations": violations, "tool_trouble": tool_trouble, "oversized_phase_ok": oversized_ok})
 }
 
 fn main() {
